@@ -28,6 +28,13 @@ package main
 // numbers). The reference is always fmt/strconv on the number fabio formats.
 // Upstreams may send 103 Early Hints first: the status of a request is the final one.
 //
+// Exchanges fabio answers by itself (40% of the proxy runs): routes whose upstream is unreachable (refused / black-holed:
+// 502 / 504 from fabio), websocket upgrade requests whose dial or handshake fails or whose upgrade the upstream refuses
+// with an ordinary response, requests without route, denied and redirected requests. What the log says about status and
+// size has to be what the raw client received; for the kinds of exchange of which the statement does not say whether they
+// are "completed requests" no line is demanded, a line that is written is judged. A failed upgrade leaves the client
+// without one byte: the logged size has to be 0, the logged status is not judged (no status line to compare with).
+//
 // A second, statement-level part (chosen per run from the scenario tape): 2-6
 // tasks call Logger.Log of one logger.New(recording writer, format) directly on
 // generated logger.Event values - every shape the doc comments of Event allow,
@@ -51,6 +58,7 @@ package main
 
 import (
 	"bytes"
+	"context"
 	"errors"
 	"fmt"
 	"io"
@@ -72,6 +80,7 @@ import (
 	"github.com/fabiolb/fabio/internal/zzverif/simhook"
 	"github.com/fabiolb/fabio/internal/zzverif/simnet"
 	"github.com/fabiolb/fabio/logger"
+	"github.com/fabiolb/fabio/noroute"
 	"github.com/fabiolb/fabio/uuid"
 )
 
@@ -98,6 +107,10 @@ type c20Route struct {
 	Prepend string `json:"prepend,omitempty"`
 	Query   string `json:"target_query,omitempty"`
 	HostOpt string `json:"host_option,omitempty"` // "", "dst" or the name to send as Host header to the upstream
+	// Down: nothing listens at the target ("refused") or connection attempts to it are never answered ("blackhole")
+	Down string `json:"upstream_down,omitempty"`
+	// Kind: "" a proxied route, "denied" a route whose allow list admits none of the clients, "redirect" a redirecting route
+	Kind string `json:"kind,omitempty"`
 }
 
 type c20Scenario struct {
@@ -122,6 +135,11 @@ type c20Scenario struct {
 	FineYields    bool                 `json:"yields_inside_number_formatter,omitempty"`
 	Stick         int                  `json:"stick"`
 	Target        []c20WFault          `json:"log_target_faults,omitempty"`
+	// requests that are not (or not only) answered with a relayed upstream response: request id -> "websocket" (an upgrade
+	// request: fabio dials the upstream itself and relays the handshake), "noroute", "denied", "redirect"
+	Self        map[string]string `json:"requests_of_another_kind,omitempty"`
+	NoRoutePage int               `json:"no_route_page_bytes,omitempty"`
+	DialTimeout time.Duration     `json:"dial_timeout,omitempty"`
 
 	epoch    time.Time
 	uuids    [][24]byte
@@ -440,6 +458,31 @@ func c20Gen(g *simcore.Tape, thorough bool) *c20Scenario {
 	for j := 0; j < nr; j++ {
 		sc.Routes = append(sc.Routes, c20GenRoute(g, j))
 	}
+	// paths on which fabio answers by itself after something failed (or without an upstream at all): upstreams that cannot
+	// be reached, websocket upgrades whose dial / handshake fails, no route, access denied, redirects
+	selfRun := g.Chance(40)
+	denied, redirect := -1, -1
+	sc.DialTimeout = 30 * time.Second
+	if selfRun {
+		sc.Self = map[string]string{}
+		for j := range sc.Routes {
+			if g.Chance(35) {
+				sc.Routes[j].Down = simcore.Pick(g, []string{"refused", "blackhole"})
+				if sc.Routes[j].Down == "blackhole" {
+					sc.DialTimeout = 7*time.Second + 13 // off every other timer of the scenario
+				}
+			}
+		}
+		if g.Chance(50) {
+			denied = len(sc.Routes)
+			sc.Routes = append(sc.Routes, c20Route{Prefix: "/deny", Service: "svc-deny", Scheme: "http", Host: "denied.sim:8080", Key: "denied.sim:8080", Kind: "denied"})
+		}
+		if g.Chance(50) {
+			redirect = len(sc.Routes)
+			sc.Routes = append(sc.Routes, c20Route{Prefix: "/redir", Service: "svc-redir", Scheme: "http", Host: "other.example", Key: "other.example:80", NoPort: true, Kind: "redirect"})
+		}
+		sc.NoRoutePage = simcore.Pick(g, []int{0, 1, 300, 5000})
+	}
 	sc.TLS = g.Chance(20)
 	tlsReported := false
 	if sc.TLS {
@@ -483,8 +526,34 @@ func c20Gen(g *simcore.Tape, thorough bool) *c20Scenario {
 			rq := h2Req{ID: fmt.Sprintf("r%d", id), Host: simcore.Pick(g, c20Hosts)}
 			id++
 			rq.Route = g.Intn(nr)
+			kind := ""
+			if selfRun {
+				switch g.Intn(10) {
+				case 4, 5, 6:
+					kind = "websocket"
+				case 7:
+					kind = "noroute"
+				case 8:
+					if denied >= 0 {
+						kind, rq.Route = "denied", denied
+					}
+				case 9:
+					if redirect >= 0 {
+						kind, rq.Route = "redirect", redirect
+					}
+				}
+				if kind != "" {
+					sc.Self[rq.ID] = kind
+				}
+			}
 			rq.Method = simcore.Pick(g, c20Methods)
 			rq.Path = sc.Routes[rq.Route].Prefix + simcore.Pick(g, c20Suffixes)
+			switch kind {
+			case "websocket":
+				rq.Method, rq.CloseAfter = "GET", true
+			case "noroute":
+				rq.Path = "/none" + simcore.Pick(g, c20Suffixes)
+			}
 			rq.Query = simcore.Pick(g, c20Queries)
 			rq.Headers = []h2Header{{"Accept-Encoding", "identity"}}
 			nh := g.Intn(6)
@@ -506,7 +575,11 @@ func c20Gen(g *simcore.Tape, thorough bool) *c20Scenario {
 			}
 			// the client is itself behind a proxy that names the scheme of the original request: exactly one of the two
 			// headers with an explicit proto, the case in which the documented heuristic leaves no choice
-			if g.Chance(25) {
+			if kind == "websocket" {
+				rq.Headers = append(rq.Headers, h2Header{"Upgrade", simcore.Pick(g, []string{"websocket", "Websocket"})}, h2Header{"Connection", "Upgrade"},
+					h2Header{"Sec-WebSocket-Key", "dGhlIHNhbXBsZSBub25jZQ=="}, h2Header{"Sec-WebSocket-Version", "13"})
+			}
+			if kind != "websocket" && g.Chance(25) {
 				proto := simcore.Pick(g, []string{"https", "http"})
 				if g.Bool() {
 					rq.Headers = append(rq.Headers, h2Header{simcore.Pick(g, []string{"X-Forwarded-Proto", "x-forwarded-proto"}), proto})
@@ -577,7 +650,19 @@ func c20Gen(g *simcore.Tape, thorough bool) *c20Scenario {
 			if g.Chance(15) {
 				rs.Early = g.Range(1, 2)
 			}
-			if faults && g.Chance(35) {
+			switch {
+			case kind == "websocket":
+				// the upstream refuses the upgrade with an ordinary response (which fabio relays), stays silent beyond
+				// the time fabio waits for the handshake, or resets the connection instead of answering
+				rs.Early = 0
+				rs.Delay = simcore.Pick(g, []time.Duration{0, 0, time.Millisecond, 1234567 * time.Nanosecond})
+				switch g.Intn(4) {
+				case 2:
+					rs.Hang = true
+				case 3:
+					rs.ResetAt = -1
+				}
+			case faults && g.Chance(35):
 				if g.Bool() {
 					rs.Hang = true
 				} else {
@@ -588,6 +673,21 @@ func c20Gen(g *simcore.Tape, thorough bool) *c20Scenario {
 			cl.Reqs = append(cl.Reqs, rq)
 		}
 		sc.Clients = append(sc.Clients, cl)
+	}
+	if len(sc.Self) > 0 {
+		// the paths on which fabio composes the answer are of interest for what the log says about the answer
+		if !c20HasField(sc.Parts, "$response_body_size") && g.Chance(60) {
+			sc.Parts = append(sc.Parts, c20Part{Lit: " "}, c20Part{Field: "$response_status"}, c20Part{Lit: " "}, c20Part{Field: "$response_body_size"})
+			sc.Format += " $response_status $response_body_size"
+		}
+		for ci := range sc.Clients {
+			for qi := range sc.Clients[ci].Reqs {
+				// fabio waits a fixed second for a websocket handshake: no scripted timer at exactly that distance
+				if rs := &sc.Clients[ci].Reqs[qi].Resp; rs.Delay == time.Second {
+					rs.Delay++
+				}
+			}
+		}
 	}
 	if sc.RequestID != "" {
 		for i := 0; i < id; i++ {
@@ -632,6 +732,13 @@ func c20Table(sc *c20Scenario) string {
 		}
 		if rt.HostOpt != "" {
 			opts = append(opts, "host="+rt.HostOpt)
+		}
+		switch rt.Kind {
+		case "denied":
+			opts = append(opts, "allow=ip:203.0.113.99") // none of the clients
+		case "redirect":
+			target = rt.Scheme + "://" + rt.Host + "/moved"
+			opts = append(opts, "redirect=301")
 		}
 		fmt.Fprintf(&b, "route add %s %s %s", rt.Service, rt.Prefix, target)
 		if len(opts) > 0 {
@@ -1186,7 +1293,22 @@ type c20Event struct {
 	hostOpt  bool
 	fwdProto bool
 	interim  int // informational responses the client received before the final one
+
+	// optional: the statement does not decide whether this exchange has to be logged (see the assumptions): no line is
+	// demanded, but a line its handler writes has to describe it
+	optional bool
+	nothing  bool     // the client received not one byte in answer: no status to compare with, 0 body bytes
+	schemes  []string // acceptable $request_scheme if more than one reading exists (websocket upgrades)
+	upSchs   []string // acceptable $upstream_request_scheme, likewise
+	upAny    bool     // no upstream is involved (no route, denied, redirect): $upstream_* are not judged
+	upURIAny bool     // the upstream never saw the request: the request-target sent to it is not known
+	path     string   // how the exchange was answered, for signatures
 }
+
+// c20Any stands for "not judged": any text is accepted for the field.
+var c20Any = []string{"\x00any"}
+
+func c20IsAny(a []string) bool { return len(a) == 1 && a[0] == c20Any[0] }
 
 func c20URI(rq *h2Req) string {
 	if rq.Query != "" || rq.HasQ {
@@ -1270,6 +1392,12 @@ func c20Render(field string, ev *c20Event) []string {
 		}
 		return []string{v}
 	}
+	if len(ev.times) < 2 && (strings.HasPrefix(field, "$time_") || strings.HasPrefix(field, "$response_time_")) {
+		return c20Any // fabio did not read the clock for this exchange
+	}
+	if ev.upAny && strings.HasPrefix(field, "$upstream_") {
+		return c20Any
+	}
 	switch field {
 	case "$remote_addr":
 		return opt(ev.hasReq, ev.remote)
@@ -1297,10 +1425,20 @@ func c20Render(field string, ev *c20Event) []string {
 	case "$request_method":
 		return opt(ev.hasReq, ev.method)
 	case "$request_scheme":
+		if len(ev.schemes) > 0 {
+			return ev.schemes
+		}
 		return opt(ev.hasURL, ev.scheme)
 	case "$request_uri":
 		return opt(ev.hasReq, ev.uri)
 	case "$request_url":
+		if len(ev.schemes) > 0 {
+			var out []string
+			for _, sch := range ev.schemes {
+				out = append(out, sch+strings.TrimPrefix(ev.url, ev.scheme))
+			}
+			return out
+		}
 		return opt(ev.hasURL, ev.url)
 	case "$request_proto":
 		return opt(ev.hasReq, ev.proto)
@@ -1312,6 +1450,9 @@ func c20Render(field string, ev *c20Event) []string {
 	case "$response_status":
 		if !ev.hasResp {
 			return c20AbsentNum
+		}
+		if ev.nothing {
+			return c20Any // the client received no status line: nothing to compare with
 		}
 		return []string{strconv.Itoa(ev.status)}
 	case "$response_time_ms", "$response_time_us", "$response_time_ns":
@@ -1349,10 +1490,26 @@ func c20Render(field string, ev *c20Event) []string {
 		}
 		return p
 	case "$upstream_request_scheme":
+		if len(ev.upSchs) > 0 {
+			return ev.upSchs
+		}
 		return opt(ev.hasUp, ev.upSch)
 	case "$upstream_request_uri":
+		if ev.upURIAny {
+			return c20Any
+		}
 		return opt(ev.hasUp, ev.upURI)
 	case "$upstream_request_url":
+		if ev.upURIAny {
+			return c20Any
+		}
+		if len(ev.upSchs) > 0 {
+			var out []string
+			for _, sch := range ev.upSchs {
+				out = append(out, sch+strings.TrimPrefix(ev.upURL, ev.upSch))
+			}
+			return out
+		}
 		return opt(ev.hasUp, ev.upURL)
 	case "$upstream_service":
 		return []string{ev.service}
@@ -1415,6 +1572,11 @@ func c20Blame(line string, alts [][]string, isField func(i int) bool) int {
 	for i := 0; i < n; i++ {
 		fwd[i+1] = map[int]bool{}
 		for p := range fwd[i] {
+			if alts[i] == nil {
+				for q := p; q <= len(line); q++ {
+					fwd[i+1][q] = true
+				}
+			}
 			for _, a := range alts[i] {
 				if strings.HasPrefix(line[p:], a) {
 					fwd[i+1][p+len(a)] = true
@@ -1426,6 +1588,11 @@ func c20Blame(line string, alts [][]string, isField func(i int) bool) int {
 	for i := n - 1; i >= 0; i-- {
 		bwd[i] = map[int]bool{}
 		for q := range bwd[i+1] {
+			if alts[i] == nil {
+				for p := 0; p <= q; p++ {
+					bwd[i][p] = true
+				}
+			}
 			for _, a := range alts[i] {
 				if strings.HasSuffix(line[:q], a) {
 					bwd[i][q-len(a)] = true
@@ -1435,7 +1602,7 @@ func c20Blame(line string, alts [][]string, isField func(i int) bool) int {
 	}
 	best, bestSpan := -1, 0
 	for k := 0; k < n; k++ {
-		if !isField(k) {
+		if !isField(k) || alts[k] == nil {
 			continue
 		}
 		span := -1
@@ -1463,7 +1630,7 @@ func c20Blame(line string, alts [][]string, isField func(i int) bool) int {
 	}
 	for k := range alts {
 		for k2 := k + 1; k2 < len(alts); k2++ {
-			if isField(k) && isField(k2) && with(k, k2) {
+			if isField(k) && isField(k2) && alts[k] != nil && alts[k2] != nil && with(k, k2) {
 				return k
 			}
 		}
@@ -1474,7 +1641,10 @@ func c20Blame(line string, alts [][]string, isField func(i int) bool) int {
 
 // c20Sig names the kind of a field mismatch without random data.
 func c20Sig(ev *c20Event, field string) string {
-	last := ev.times[len(ev.times)-1]
+	var last time.Time
+	if len(ev.times) > 0 {
+		last = ev.times[len(ev.times)-1]
+	}
 	_, off := last.Zone()
 	switch {
 	case field == "":
@@ -1518,6 +1688,8 @@ func c20Sig(ev *c20Event, field string) string {
 		return field + "/no-response"
 	case (field == "$response_status" || field == "$response_body_size") && ev.interim > 0:
 		return field + "/after-informational-response"
+	case (field == "$response_status" || field == "$response_body_size") && ev.path != "":
+		return field + "/" + ev.path
 	}
 	return field
 }
@@ -1546,12 +1718,23 @@ func runC20(r *simcore.Run) {
 	cfg.Proxy.Matcher = "prefix"
 	cfg.Proxy.NoRouteStatus = 404
 	cfg.GlobCacheSize = 100
-	cfg.Proxy.DialTimeout = 30 * time.Second
+	cfg.Proxy.DialTimeout = sc.DialTimeout
 	cfg.Proxy.ResponseHeaderTimeout = sc.HeaderTimeout
 	cfg.Proxy.RequestID = sc.RequestID
 	cfg.Proxy.STSHeader = config.STSHeader{MaxAge: sc.STSMaxAge, Subdomains: sc.STSSub, Preload: sc.STSPreload}
 	e := h2NewEnv(r, cfg, c20Table(sc))
 	defer e.finish()
+	// the page sent with the no-route status is process-wide state: set in every run
+	noroute.SetHTML(strings.Repeat("<html>no route</html>\n", (sc.NoRoutePage+21)/22)[:sc.NoRoutePage])
+	// a connection attempt that is never answered ends at its time limit: the clock has to get there
+	if dial := e.d.Sim.Dial; dial != nil {
+		e.d.Sim.Dial = func(ctx context.Context, network, addr string, timeout, keepAlive time.Duration) (net.Conn, error) {
+			if timeout > 0 {
+				e.d.Hint(time.Now().Add(timeout))
+			}
+			return dial(ctx, network, addr, timeout, keepAlive)
+		}
+	}
 
 	// the access logger under test, writing to the recording (and fault-playing) target
 	w := c20NewWriter(r, sc, e.d.Hint)
@@ -1677,10 +1860,22 @@ func runC20(r *simcore.Run) {
 		if rt.Scheme == "https" {
 			up = &tls.Config{Certificates: []tls.Certificate{zzSelfSigned()}}
 		}
-		e.upstream(rt.Key, simnet.ListenOpts{}, up)
+		switch {
+		case rt.Kind != "" || rt.Down == "refused":
+			// nothing listens there
+		case rt.Down == "blackhole":
+			e.net.Blackhole(rt.Key, true)
+		default:
+			e.upstream(rt.Key, simnet.ListenOpts{}, up)
+		}
 	}
-	if sc.HeaderTimeout > 0 {
-		e.onSeen = func(s *h2Seen) { e.d.Hint(s.At.Add(sc.HeaderTimeout)) }
+	e.onSeen = func(s *h2Seen) {
+		if sc.HeaderTimeout > 0 {
+			e.d.Hint(s.At.Add(sc.HeaderTimeout))
+		}
+		if sc.Self[s.Header.Get("X-Sim-Id")] == "websocket" {
+			e.d.Hint(s.At.Add(time.Second)) // a clock step only: about when fabio stops waiting for a handshake
+		}
 	}
 	for i := range sc.Clients {
 		e.client(&sc.Clients[i])
@@ -1725,21 +1920,54 @@ func runC20(r *simcore.Run) {
 				r.Trouble("no result for %s", rq.ID)
 				return
 			}
-			faulted := rq.Resp.Hang || rq.Resp.ResetAt != 0 || (sc.HeaderTimeout > 0 && rq.Resp.Delay >= sc.HeaderTimeout)
-			if faulted {
+			kind := sc.Self[rq.ID]
+			ws := kind == "websocket"
+			// the answer is (at best) fabio's own: the route's upstream cannot be reached, or no upstream is involved
+			own := rt.Down != "" || (kind != "" && !ws)
+			faulted := rq.Resp.Hang || rq.Resp.ResetAt != 0 || (sc.HeaderTimeout > 0 && rq.Resp.Delay >= sc.HeaderTimeout && !ws && !own)
+			if faulted && !own {
 				r.Fault("upstream_silent_or_reset")
 			}
+			if rt.Down != "" {
+				r.Fault("upstream_" + rt.Down)
+			}
+			// how the exchange was answered (for probes and signatures)
+			path := ""
+			switch {
+			case ws && rt.Down != "":
+				path = "websocket-upgrade/upstream-" + rt.Down
+			case ws && faulted:
+				path = "websocket-upgrade/handshake-fails"
+			case ws:
+				path = "websocket-upgrade/refused-by-upstream"
+			case kind != "":
+				path = kind
+			case rt.Down != "":
+				path = "upstream-" + rt.Down
+			}
+			if path != "" {
+				r.Probe("answered_" + path)
+			}
+			faulted = faulted || own
 			if w.raisedPanic(reqTask[rq.ID] + "#0") {
 				// the panic of the log target went up through the handler of this request: what its client sees is not judged
 				faulted = true
 				r.Probe("log_target_panic_through_handler")
 			}
 			r.Tracef("exchange %s -> interim=%v status=%d body=%d err=%v", rq.ID, res.Interim, res.Status, len(res.Body), res.Err)
+			nothing := false
 			if res.Err != nil || res.Status == 0 {
 				if !faulted {
 					r.Fail("response", "error", "%s: the client got no response: %v", what, res.Err)
 				}
-				continue
+				if !ws || !faulted {
+					continue
+				}
+				// a websocket upgrade whose upstream could not be dialled or did not answer the handshake: the client's
+				// connection ended without one byte of a response (fabio has taken the connection over by then)
+				nothing = true
+				path += "/client-received-nothing"
+				r.Probe("websocket_upgrade_failed_client_received_nothing")
 			}
 			// "never alters the response": the client sees what the upstream sent
 			if !faulted {
@@ -1770,8 +1998,19 @@ func runC20(r *simcore.Run) {
 			ev := &c20Event{key: task + "#0", hasReq: true, method: rq.Method, uri: c20URI(rq), proto: "HTTP/1.1", hosts: []string{rq.Host},
 				remote: obs.remote[rq.ID], hasURL: true, scheme: "http", args: rq.Query, hasResp: true, status: res.Status, size: int64(len(res.Body)),
 				times: obs.clock[task], upAddr: rt.Host, upDef: c20DefaultPort(rt.Scheme), hasUp: true, upSch: rt.Scheme, service: rt.Service,
-				hostOpt: rt.HostOpt != "", interim: len(res.Interim)}
+				hostOpt: rt.HostOpt != "", interim: len(res.Interim), path: path}
 			ev.what = fmt.Sprintf("request %s %s (id %s) from %s via %s://%s", rq.Method, c20ClipN(c20URI(rq), 60), rq.ID, ev.remote, rt.Scheme, rt.Host)
+			if path != "" {
+				ev.what += ", answered: " + path
+			}
+			if nothing {
+				ev.nothing, ev.status, ev.size = true, 0, 0
+			}
+			// whether a websocket upgrade, a request without route, a denied or a redirected request is a "completed
+			// request" that has to be logged is not decided; what is logged about it has to be accurate
+			ev.optional = kind != ""
+			ev.upAny = kind != "" && !ws
+			ev.upURIAny = len(seen) == 0
 			if ev.interim > 0 {
 				// the status of the completed request is the final one the client received, whatever came before it
 				ev.what += fmt.Sprintf(", client received the informational responses %v first", res.Interim)
@@ -1791,6 +2030,12 @@ func runC20(r *simcore.Run) {
 			}
 			if sc.TLS {
 				ev.scheme = "https"
+			}
+			if ws {
+				// the documentation does not say whether an upgrade request is described by the scheme of the connection or by
+				// the websocket scheme that stands for it
+				ev.schemes = []string{ev.scheme, map[string]string{"http": "ws", "https": "wss"}[ev.scheme]}
+				ev.upSchs = []string{rt.Scheme, map[string]string{"http": "ws", "https": "wss"}[rt.Scheme]}
 			}
 			if p := sc.fwdProto[rq.ID]; p != "" {
 				// the proxy in front of fabio names the scheme of the original request (exactly one of X-Forwarded-Proto /
@@ -1813,7 +2058,7 @@ func runC20(r *simcore.Run) {
 				ev.upURI = seen[0].RequestURI
 			}
 			ev.upURL = rt.Scheme + "://" + rt.Host + ev.upURI
-			if len(ev.times) < 2 {
+			if len(ev.times) < 2 && !ev.optional {
 				if r.Failed() {
 					continue // the handler died before it read the clock again; already recorded
 				}
@@ -1856,7 +2101,7 @@ func runC20(r *simcore.Run) {
 					r.Probe("hex16_reported_boundary_value")
 				}
 				r.Probe("hex16_compared")
-				if sc.STSMaxAge > 0 {
+				if sc.STSMaxAge > 0 && !ws {
 					got := res.Header.Get("Strict-Transport-Security")
 					// the number fabio formats is int32(max-age): strconv's rendering of that number is the reference; the
 					// configured number itself, untruncated, is accepted as well (which of the two belongs there is not judged)
@@ -1915,6 +2160,10 @@ func c20Judge(r *simcore.Run, sc *c20Scenario, events []*c20Event, w *c20Writer)
 	optional := make([]bool, len(events))
 	for j, ev := range events {
 		evByKey[ev.key] = ev
+		if ev.optional {
+			optional[j] = true
+			r.Tracef("not demanded: a line for %s (%s)", ev.key, ev.path)
+		}
 		if refused[ev.key] {
 			optional[j] = true
 			r.Probe("line_refused_by_log_target")
@@ -1977,6 +2226,9 @@ func c20Judge(r *simcore.Run, sc *c20Scenario, events []*c20Event, w *c20Writer)
 			if a == nil {
 				r.Trouble("no reference for field %s", p.Field)
 				return
+			}
+			if c20IsAny(a) {
+				a = nil
 			}
 			alts[j] = append(alts[j], a)
 		}
@@ -2062,7 +2314,7 @@ func c20Judge(r *simcore.Run, sc *c20Scenario, events []*c20Event, w *c20Writer)
 				// the line written by this request's own handler is not the rendering of this request
 				blamed[j] = true
 				field, want := "", []string{"<end of line>"}
-				if at < len(alts[j]) {
+				if at < len(alts[j]) && alts[j][at] != nil {
 					want = alts[j][at]
 				}
 				if at < len(sc.Parts) {
